@@ -933,6 +933,27 @@ def gen_churn(rnd, asserts, pool, tg, depth, mk_assert, steps):
     return hist
 
 
+def gen_ksat(rnd, named=True, nmin=8, nmax=14, opts=None):
+    """Random k-SAT near the threshold over Bool constants (unsat proofs with real search)."""
+    n = rnd.randint(nmin, nmax)
+    m = int(n * (4.0 + rnd.random() * 2.5))
+    decls = ["(declare-fun p%d () Bool)" % i for i in range(n)]
+    cmds = []
+    seen = set()
+    for j in range(m):
+        k = 3 if rnd.random() < 0.8 else 2
+        vs = rnd.sample(range(n), k)
+        lits = ["p%d" % v if rnd.random() < 0.5 else "(not p%d)" % v for v in vs]
+        t = "(or %s)" % " ".join(lits)
+        key = tuple(sorted(lits))
+        if key in seen:
+            continue
+        seen.add(key)
+        cmds.append(["assert-named", t, "c%d" % j] if named else ["assert", t])
+    cmds.append(["check-sat"])
+    return {"options": list(opts or []), "logic": "QF_UF", "lk": "PROP", "decls": decls, "cmds": cmds}
+
+
 def render(script, exit_cmd=False):
     out = []
     for k, v in script["options"]:
